@@ -4,3 +4,7 @@ NOT_CLAIMED = {}
 claim("C01", "DESIGN.md §4 C01",
       "Every history of the bounded alphabet (delegate/undelegate/redelegate/claim by 2 delegators on 2 validators, slash 1/3 and 100%, reward inflow in the bond denom and in an alliance denom, unsolicited gifts, block steps of 1 and 3 units) is executed on the real keeper and the custody equation is evaluated exactly in every reached state. Exhaustive within the stated budgets; says nothing about amounts or participants outside the menus.",
       "Trusted: the harness's world construction (real App, deterministic genesis), cosmos-sdk cache-branch semantics as the tx rollback mechanism, SHA-256 state identity. Module-only block boundary (alliance EndBlocker alone).")
+
+claim("C03", "DESIGN.md §4 C03",
+      "After every transition of every bounded history (small-amount menu, a 1-vs-1e30 magnitude pairing, slashes 1/3, 0.5, 0.99, take-rate steps over 0/1/3 intervals, full drains and re-staking) the share ledger is recomputed from the raw primary records and compared exactly: per validator/denom sum of delegation shares vs recorded total (including totals left without delegations), per asset sum of validator shares vs recorded total, non-negativity, reset at zero stake; the module's registered invariants are run as well.",
+      "Trusted: world construction and state identity as for C01. The registered validator-shares invariant is vacuous on this tree (GetAllAllianceValidatorInfo's deferred Close overwrites the decode error), so the independent recomputation is the deciding oracle.")
